@@ -1023,7 +1023,7 @@ func c03Menu(emask int, reduced bool) []c03Fact {
 	}
 
 	if reduced {
-		return []c03Fact{{Prop: 0, Ex: emask}, {Prop: 1, Ex: emask}, {Prop: 0, Ex: -1}}
+		return []c03Fact{{Prop: 0, Ex: emask}, {Prop: 1, Ex: emask}}
 	}
 
 	return []c03Fact{{Prop: 0, Ex: emask}, {Prop: 1, Ex: emask}, {Prop: 0, Ex: -1}, {Prop: 1, Ex: -1}}
@@ -1211,11 +1211,31 @@ func (w *c03World) mainProduct(l *c03Local, t10 int, job c03Job, reduced bool, m
 		return
 	}
 
-	// banded / boundary: the same option index for every expel, plus one expel deviating
+	// banded / boundary: the same option for every expel, plus ONE expel deviating
+	// (boundary mode: deviations only from the options of exactly the required size)
 	no := len(opts[0])
 	for i := range opts {
 		if len(opts[i]) < no {
 			no = len(opts[i])
+		}
+	}
+
+	th := c03Quorum(n, t10)
+	if len(targets) > n-th {
+		th = n - len(targets)
+	}
+
+	seen := map[string]bool{}
+	once := func() {
+		var sb strings.Builder
+		for i := range c.Expels {
+			fmt.Fprint(&sb, c.Expels[i].Signers, ";")
+		}
+
+		if !seen[sb.String()] {
+			seen[sb.String()] = true
+
+			run()
 		}
 	}
 
@@ -1224,7 +1244,11 @@ func (w *c03World) mainProduct(l *c03Local, t10 int, job c03Job, reduced bool, m
 			c.Expels[i].Signers = opts[i][u]
 		}
 
-		run()
+		once()
+
+		if mode == c03SignersBoundary && len(opts[0][u]) != th {
+			continue
+		}
 
 		for d := range targets {
 			for v := range opts[d] {
@@ -1233,7 +1257,7 @@ func (w *c03World) mainProduct(l *c03Local, t10 int, job c03Job, reduced bool, m
 				}
 
 				c.Expels[d].Signers = opts[d][v]
-				run()
+				once()
 			}
 
 			c.Expels[d].Signers = opts[d][u]
@@ -1243,8 +1267,9 @@ func (w *c03World) mainProduct(l *c03Local, t10 int, job c03Job, reduced bool, m
 
 // deviations: single-deviation negatives around a base candidate whose expels
 // are signed by every other node (or by exactly the required number).
-// thin (n>=6 and the quick n=5): bases over the two facts {A,B} (with the expel facts of E) in which at
-// most one non-expelled node is absent; otherwise every assignment over {A_E, B_E, A}.
+// thin (n>=6 and the quick n=5): bases in which the first m non-expelled nodes vote A (with the expel
+// facts of E) and the others are absent, m in {required-1, required, all}, and the same with the last
+// voter voting B; otherwise every assignment over {A_E, B_E, A}.
 func (w *c03World) deviations(l *c03Local, t10 int, emask int, thin bool) {
 	n := w.n
 	targets := c03Bits(emask)
@@ -1257,9 +1282,18 @@ func (w *c03World) deviations(l *c03Local, t10 int, emask int, thin bool) {
 		}
 	}
 
-	menu := c03Menu(emask, true)
+	menu := c03Menu(emask, false)
+	if len(menu) > 3 {
+		menu = menu[:3]
+	}
+
 	if thin {
 		menu = menu[:2]
+	}
+
+	rth := c03Quorum(n, t10)
+	if emask != 0 {
+		rth = len(voters)
 	}
 
 	bc := &c03Cand{ExpelVP: emask != 0}
@@ -1288,7 +1322,7 @@ func (w *c03World) deviations(l *c03Local, t10 int, emask int, thin bool) {
 	}
 
 	c03ForEachAssignment(voters, menu, func(votes []c03Vote) {
-		if thin && len(votes) < len(voters)-1 {
+		if thin && !c03ThinBase(votes, voters, menu, rth) {
 			return
 		}
 
@@ -1447,6 +1481,26 @@ func (w *c03World) deviations(l *c03Local, t10 int, emask int, thin bool) {
 			ev(c)
 		}
 	})
+}
+
+func c03ThinBase(votes []c03Vote, voters []int, menu []c03Fact, rth int) bool {
+	m := len(votes)
+	if m != rth-1 && m != rth && m != len(voters) {
+		return false
+	}
+
+	for i := range votes {
+		switch {
+		case votes[i].Node != voters[i]:
+			return false
+		case votes[i].Fact == menu[0]:
+		case i == m-1 && votes[i].Fact == menu[1]:
+		default:
+			return false
+		}
+	}
+
+	return true
 }
 
 // ---------------------------------------------------------------- honest constructions (non-vacuity)
@@ -1626,7 +1680,12 @@ func c03Configs(r *vlib.Run) []c03Config {
 
 			switch {
 			case r.Thorough():
-				sizes = append(sizes, nr{5, false, 4096}, nr{6, true, 0}, nr{7, true, 0})
+				cap5 := 256
+				if t10 == 670 && st == base.StageINIT {
+					cap5 = 4096
+				}
+
+				sizes = append(sizes, nr{5, false, cap5}, nr{6, true, 0}, nr{7, true, 0})
 			case st == base.StageINIT:
 				sizes = append(sizes, nr{5, true, 0})
 			}
